@@ -134,6 +134,11 @@ class Prop(common.PropertyCheck):
             stext = [[tok(), tok()] for _e in range(rng.randrange(1, 4))] if rng.random() < 0.5 else None
             if stext and extra and rng.random() < 0.5:
                 stext[0][0] = extra[0][0]      # supplemental overrides primary
+            if stext and rng.random() < 0.5:
+                # a standard ($-prefixed) keyword given in the primary segment and redefined in the supplemental one
+                kw = rng.choice(['$CYT', '$P1S', '$OP'])
+                extra = extra + [[kw, 'primary ' + tok()]]
+                stext = stext + [[kw, 'supplemental ' + tok()]]
             analysis = [[tok(), tok()] for _e in range(rng.randrange(1, 4))] if rng.random() < 0.5 else None
             bad_analysis = rng.random() < 0.15
             version = rng.choice(['FCS3.0', 'FCS3.1']) if stext is not None else rng.choice(['FCS2.0', 'FCS3.0', 'FCS3.1'])
